@@ -11,7 +11,7 @@ namespace Placement
 /-- what a transaction is for (compared with the tables the real transaction touches) -/
 inductive Lbl
   | getRp | getTraits | main | getProject | createProject | getUser | createUser
-  | getConsumer | getCtype | createCtype | createConsumer | getAllocs | cleanup | other
+  | getConsumer | getCtype | createCtype | createConsumer | updateConsumer | getAllocs | cleanup | other
 deriving DecidableEq, Repr, Inhabited
 
 inductive Prog (σ α : Type) where
